@@ -5,6 +5,7 @@ import (
 	"io"
 	"time"
 
+	"github.com/beevik/etree"
 	dsig "github.com/russellhaering/goxmldsig"
 )
 
@@ -30,3 +31,10 @@ func randomBytes(n int) []byte {
 	}
 	return rv
 }
+
+// wireWriteSettings makes etree write carriage returns (and, in attribute values, tabs
+// and line feeds) as character references, the way canonical XML does. Written raw they
+// do not survive the line-end and attribute-value normalisation of the XML parser that
+// reads the message: the value comes back altered, and a signature computed over the
+// canonical form no longer verifies.
+var wireWriteSettings = etree.WriteSettings{CanonicalText: true, CanonicalAttrVal: true}
